@@ -7,18 +7,19 @@
 //
 //	reset [next=<n>]                      fresh requester; optionally presets the id allocator (wrap tests)
 //	req s=<act>                           one top-level issue; <act> is a script item (below)
-//	noroute cb=<0|1>                      node-level app.Request whose route finds no target
+//	noroute cb=<0|1>                      node-level app.Request whose route finds no target (= req s=X / req s=x)
 //	preq s=<act>                          request / notify to a peer that is a real service with an API dispatcher (apimapper): its
 //	                                      handler park.Park keeps the completion callback; `deliver` completes it later, in any
 //	                                      order, with other requests dispatched in between (asynchronous API handlers)
 //	areq peer=echo|hold s=<act>           node-level app.Request routed through the cluster directory to the peer that answers at
 //	                                      once with TestHello{7000+tag} (echo) or to the scripted one that holds requests (hold)
 //	anotify peer=echo|hold|none [ser=0]   node-level app.Notify to such a peer (none: no routable target)
-//	deliver k=<tag> kind=ok|nil|err|bad|empty w=<n> [code=<int32>]   (empty: a reply of the field-less type EmptyArg; ok w=0 and empty
+//	deliver k=<tag> kind=ok|nil|err|bad|badtype|empty w=<n> [code=<int32>]   (badtype: success code and a type name nobody
+//	                                      registered — remote.Deserialize panics on it, D22; empty: a reply of the field-less type EmptyArg; ok w=0 and empty
 //	                                      serialise to ZERO bytes and must still arrive as a non-nil message of their type)
 //	                                      the peer answers the message it received for instance <tag>
 //	                                      (kind=err: ErrCode = code, default 999; any code != 0 is an error reply)
-//	inject id=<n> kind=ok|nil|err|bad w=<n>     a raw ServiceResponse for an arbitrary id reaches the requester
+//	inject id=<n> kind=ok|nil|err|bad|badtype w=<n>     a raw ServiceResponse for an arbitrary id reaches the requester
 //	adv dt=<ms> flood=<n> [order=..]      as adv, but the service goroutine is parked in a posted closure for the whole time after
 //	                                      starting n zero-delay timers (n >= 1000 overflows timer.Mgr's 999-slot queue): an expiry
 //	                                      tick falling into the window is delivered late — at the end — not lost
@@ -38,12 +39,14 @@
 // script item:  R request with callback | r request with nil callback | N notify
 //
 //	F request+callback whose message cannot be serialised | f same, nil callback | n notify, not serialisable
-//	R and F may be followed by "(" items ")" : what the callback does when it runs.
+//	X node-level app.Request whose route finds no target, with callback (completed at once with ErrorNoService) |
+//	x same, nil callback | y app.Notify without a target
+//	R, F and X may be followed by "(" items ")" : what the callback does when it runs.
 //	P (inside a callback script only): the callback panics — but only when it runs as part of a timeout
 //	completion (directly or nested through an F callback): that panic is recovered by timer.Mgr; a panic
 //	under handleResponse would restart the actor (supervisor) and is outside this check.
 //
-// Observation: `<status> iss=.. cb=.. sent=.. pend=..`
+// Observation: `<status> iss=.. cb=.. sent=.. pend=..`   status `restarted`: the supervisor replaced the requester by a fresh Service
 //
 //	iss  = instances issued during the op  <tag>:<kind char>@<t>
 //	cb   = callback invocations in order   <tag>:<class>@<t>[!ctx]   class = ok:<v> | ok:nil | rerr:<w> | err | timeout | noservice
@@ -98,7 +101,7 @@ func parseActs(s string, i *int) []*act {
 		if ch == ')' {
 			return out
 		}
-		if !strings.ContainsRune("RrNFfnP", rune(ch)) {
+		if !strings.ContainsRune("RrNFfnPXxy", rune(ch)) {
 			*i++
 			continue
 		}
@@ -110,7 +113,7 @@ func parseActs(s string, i *int) []*act {
 			if *i < len(s) && s[*i] == ')' {
 				*i++
 			}
-			if ch != 'R' && ch != 'F' {
+			if ch != 'R' && ch != 'F' && ch != 'X' {
 				a.sub = nil
 			}
 		}
@@ -200,6 +203,7 @@ type caseCtx struct {
 	mu       sync.Mutex // bookkeeping below (a mutated implementation may call back from a foreign goroutine)
 	dead     bool
 	svc      *reqSvc
+	svc0     *reqSvc // the incarnation the case started with
 	pid      *actor.PID
 	start    int64
 	gid      int
@@ -319,6 +323,18 @@ func (c *caseCtx) issueVia(a *act, route string, via string) {
 	if a.kind == 'F' || a.kind == 'f' || a.kind == 'n' {
 		msg = plain{k}
 	}
+	switch a.kind {
+	case 'X':
+		f := c.mkcb(k, a.sub)
+		app.Request(c.svc.NodeService, "nosuch.remote.hello", "", msg, func(e error, r any) { f(e, r) })
+		return
+	case 'x':
+		app.Request(c.svc.NodeService, "nosuch.remote.hello", "", msg, nil)
+		return
+	case 'y':
+		app.Notify(c.svc.NodeService, "nosuch.remote.hello", "", msg)
+		return
+	}
 	if via == "api" {
 		switch a.kind {
 		case 'R', 'F':
@@ -378,6 +394,9 @@ func (c *caseCtx) observe(status string) string {
 	c.w.mu.Unlock()
 	c.mu.Lock()
 	defer c.mu.Unlock()
+	if c.svc != c.svc0 {
+		status = "restarted" // the actor was restarted: a new Service object (empty table, ids from 1)
+	}
 	o := fmt.Sprintf("%s iss=%s cb=%s sent=%s pend=%s pan=%s", status, strings.Join(c.iss, ","), strings.Join(c.cbs, ","), sent, c.pend(), strings.Join(c.pans, ","))
 	c.iss, c.cbs, c.pans = nil, nil, nil
 	return o
@@ -425,6 +444,7 @@ func (w *world) reset(ws []string) *caseCtx {
 	}
 	c.pid = pid
 	synctest.Wait()
+	c.svc0 = c.svc
 	w.mu.Lock()
 	w.cur = c
 	w.mu.Unlock()
@@ -520,6 +540,8 @@ func mkResponse(id int32, kind string, wv int, code int32) *messages.ServiceResp
 		r.ErrCode, r.ErrInfo = code, fmt.Sprintf("E%d", wv)
 	case "bad":
 		r.Type, r.Body = "servicemsgs.TestHello", []byte{0xff}
+	case "badtype":
+		r.Type, r.Body = "c01.NoSuchType", []byte{1}
 	}
 	return r
 }
@@ -666,7 +688,7 @@ func (w *world) exec(op string) (string, string) {
 		s, _ := hx.KV(ws, "s")
 		i := 0
 		acts := parseActs(s, &i)
-		if len(acts) != 1 || acts[0].kind == 'P' {
+		if len(acts) != 1 || acts[0].kind == 'P' || isNoRoute(acts[0].kind) {
 			return op, "bad-op"
 		}
 		c.onSvc(func() { c.issueVia(acts[0], "park.Park", "api") })
@@ -676,7 +698,7 @@ func (w *world) exec(op string) (string, string) {
 		i := 0
 		acts := parseActs(s, &i)
 		pn, _ := hx.KV(ws, "peer")
-		if len(acts) != 1 || acts[0].kind == 'P' || acts[0].kind == 'N' || acts[0].kind == 'n' || peerName(pn) == "" {
+		if len(acts) != 1 || acts[0].kind == 'P' || acts[0].kind == 'N' || acts[0].kind == 'n' || isNoRoute(acts[0].kind) || peerName(pn) == "" {
 			return op, "bad-op"
 		}
 		c.onSvc(func() { c.issueVia(acts[0], "remote.hello", peerName(pn)) })
@@ -688,12 +710,7 @@ func (w *world) exec(op string) (string, string) {
 			kind = 'n'
 		}
 		if pn == "none" {
-			c.onSvc(func() {
-				c.mu.Lock()
-				c.iss = append(c.iss, fmt.Sprintf("x:X@%d", c.now()))
-				c.mu.Unlock()
-				app.Notify(c.svc.NodeService, "peer.remote.hello", "", &messages.TestHello{I: 1})
-			})
+			c.onSvc(func() { c.issue(&act{kind: 'y'}, "") })
 			return op, c.observe("ok")
 		}
 		if peerName(pn) == "" {
@@ -702,25 +719,11 @@ func (w *world) exec(op string) (string, string) {
 		c.onSvc(func() { c.issueVia(&act{kind: kind}, "remote.hello", peerName(pn)) })
 		return op, c.observe("ok")
 	case "noroute":
-		hasCb := hx.KVInt(ws, "cb") == 1
-		c.onSvc(func() {
-			c.mu.Lock()
-			c.iss = append(c.iss, fmt.Sprintf("x:X@%d", c.now()))
-			c.mu.Unlock()
-			var cb func(error, any)
-			if hasCb {
-				cb = func(e error, r any) {
-					ctx := ""
-					if common.GetRoutineID() != c.gid {
-						ctx = "!ctx"
-					}
-					c.mu.Lock()
-					c.cbs = append(c.cbs, fmt.Sprintf("x:%s@%d%s", classify(e, r), c.now(), ctx))
-					c.mu.Unlock()
-				}
-			}
-			app.Request(c.svc.NodeService, "nosuch.remote.hello", "", &messages.TestHello{I: 1}, cb)
-		})
+		kind := byte('x')
+		if hx.KVInt(ws, "cb") == 1 {
+			kind = 'X'
+		}
+		c.onSvc(func() { c.issue(&act{kind: kind}, "") })
 		return op, c.observe("ok")
 	case "deliver":
 		if _, ok := hx.KV(ws, "k"); !ok {
@@ -741,7 +744,7 @@ func (w *world) exec(op string) (string, string) {
 		w.mu.Lock()
 		parked, isParked := c.parked[k], c.isParked[k]
 		w.mu.Unlock()
-		if isParked && kind != "bad" {
+		if isParked && kind != "bad" && kind != "badtype" {
 			// the API handler's kept completion callback is invoked now, in the peer's own context
 			var e error
 			var ret interface{}
@@ -769,9 +772,9 @@ func (w *world) exec(op string) (string, string) {
 		case "err":
 			code := errCode(ws)
 			w.peer.Post(func() { w.peer.Response(req, code, fmt.Sprintf("E%d", wv), nil) })
-		case "bad":
+		case "bad", "badtype":
 			if req.ReqId != as.NotifyReqID {
-				w.sys.Root.Send(c.pid, mkResponse(req.ReqId, "bad", wv, 0))
+				w.sys.Root.Send(c.pid, mkResponse(req.ReqId, kind, wv, 0))
 			}
 		default:
 			return op, "bad-op"
@@ -782,7 +785,11 @@ func (w *world) exec(op string) (string, string) {
 		if _, ok := hx.KV(ws, "id"); !ok {
 			return op, "bad-op"
 		}
-		id := hx.KVInt(ws, "id")
+		idStr, _ := hx.KV(ws, "id")
+		id, perr := strconv.ParseInt(idStr, 10, 32) // the wire field is an int32: negative ids can arrive, too
+		if perr != nil || strings.HasPrefix(idStr, "+") {
+			return op, "bad-op"
+		}
 		kind, _ := hx.KV(ws, "kind")
 		if !validKind(kind) {
 			return op, "bad-op"
@@ -841,8 +848,10 @@ func (w *world) exec(op string) (string, string) {
 	return op, "bad-op"
 }
 
+func isNoRoute(k byte) bool { return k == 'X' || k == 'x' || k == 'y' }
+
 func validKind(k string) bool {
-	return k == "ok" || k == "nil" || k == "err" || k == "bad" || k == "empty"
+	return k == "ok" || k == "nil" || k == "err" || k == "bad" || k == "empty" || k == "badtype"
 }
 
 func protoMarshalHello(v int32) ([]byte, error) {
@@ -892,7 +901,20 @@ func (g *gen) script(depth int) string {
 
 func (g *gen) act(depth int) string {
 	r := g.h.R
-	switch x := r.Intn(20); {
+	switch x := r.Intn(22); {
+	case x >= 20:
+		// node-level calls whose route finds no target: completed at once with ErrorNoService, inside callbacks too
+		g.h.Count("script.noroute")
+		switch r.Intn(4) {
+		case 0:
+			return "x"
+		case 1:
+			return "y"
+		}
+		if depth < 2 && r.Intn(2) == 0 {
+			return "X(" + g.script(depth+1) + ")"
+		}
+		return "X"
 	case x < 9:
 		if depth < 2 && r.Intn(4) == 0 {
 			g.h.Count("script.nested")
@@ -951,6 +973,10 @@ func (g *gen) payloadKind() string {
 		}
 		return fmt.Sprintf("err code=%d", c)
 	default:
+		if g.h.R.Intn(2) == 0 {
+			g.h.Count("reply.badtype")
+			return "badtype" // a type name the requester's registry does not know (D22)
+		}
 		return "bad"
 	}
 }
@@ -1034,6 +1060,8 @@ func (g *gen) genCase(run func(string)) {
 			a := g.act(0)
 			h.Count("op.req." + a[:1])
 			switch y := r.Intn(8); {
+			case isNoRoute(a[0]):
+				run("req s=" + a)
 			case y <= 2 && (a[0] == 'N' || a[0] == 'n'):
 				h.Count("op.anotify")
 				run("anotify peer=" + []string{"echo", "hold", "hold", "none"}[r.Intn(4)] + map[byte]string{'N': "", 'n': " ser=0"}[a[0]])
@@ -1085,7 +1113,11 @@ func (g *gen) genCase(run func(string)) {
 			}
 		case x < 78:
 			id := 0
-			switch y := r.Intn(6); y {
+			switch y := r.Intn(7); y {
+			case 6:
+				// the wire field is a signed int32: negative ids are never allocated and must miss
+				h.Count("op.inject.negative-id")
+				id = []int{-1, -2, -1 - r.Intn(50), -2147483648, -0x7FFFFFF0}[r.Intn(5)]
 			case 0:
 				id = 0
 			case 1:
@@ -1257,15 +1289,17 @@ func TestWrapByAlloc(t *testing.T) {
 	h.Count("allocrun")
 }
 
-// TestEnum (thorough tier): every op sequence of length 4 over a 10-letter
-// alphabet (two request shapes, a failing one, a notify, replies to the first
-// two instances, a raw response, two clock steps that together cross the deadline).
+// TestEnum (thorough tier): every op sequence of length 4 over a 12-letter
+// alphabet (two request shapes, a failing one, a notify, an unroutable node-level request whose
+// callback issues a request, replies to the first two instances — one of an unregistered type —,
+// a raw response, two clock steps that together cross the deadline).
 func TestEnum(t *testing.T) {
 	synctest.Test(t, func(t *testing.T) {
 		h := hx.Open()
 		w := newWorld()
 		alpha := []string{"req s=R(P)", "req s=r", "req s=F(R)", "req s=R(N)", "deliver k=0 kind=ok w=7", "deliver k=1 kind=err w=8",
-			"deliver k=0 kind=bad w=0", "inject id=2 kind=nil w=0", "adv dt=15500", "adv dt=15501"}
+			"deliver k=0 kind=bad w=0", "inject id=2 kind=nil w=0", "adv dt=15500", "adv dt=15501",
+			"deliver k=1 kind=badtype w=0", "req s=X(R)"}
 		L := hx.EnvInt("VERIF_ENUM_LEN", 4)
 		idx := make([]int, L)
 		n := 0
@@ -1293,7 +1327,7 @@ func TestEnum(t *testing.T) {
 				break
 			}
 		}
-		h.Stats["exhaustive.sequences.len4.alphabet10"] = n
+		h.Stats[fmt.Sprintf("exhaustive.sequences.len%d.alphabet%d", L, len(alpha))] = n
 		h.Close()
 		os.Stdout.Sync()
 		syscall.Exit(0)
